@@ -162,17 +162,17 @@ package gateway
 
 //@ func (*handler1).newTopicID
 //@   nopanic [C25]
-//@   requires [C04] seq: topicSeq(h)
+//@   requires [C04,C02] seq: topicSeq(h)
 //@   assigns h.topicIDsUsedUp, h.topicID.next, h.topicID.overflow, h.topicID.pos, h.topicID.cycle, h.topicID.given
-//@   loop 0 invariant [C04] li: topicSeq(h) && !h.topicIDsUsedUp && !old(h.topicIDsUsedUp) && !old(topicID in h.topicID.given) && (topicID in h.topicID.given) &&
+//@   loop 0 invariant [C04,C02] li: topicSeq(h) && !h.topicIDsUsedUp && !old(h.topicIDsUsedUp) && !old(topicID in h.topicID.given) && (topicID in h.topicID.given) &&
 //@      1 <= topicID && topicID <= 0xFFFE && (forall k uint16 :: old(k in h.topicID.given) ==> (k in h.topicID.given))
-//@   ensures [C04] keeps: topicSeq(h)
-//@   ensures [C04] in_range: result1 == nil ==> 1 <= result0 && result0 <= 0xFFFE
-//@   ensures [C04] never_reissued: result1 == nil ==> !old(result0 in h.topicID.given) && (result0 in h.topicID.given)
-//@   ensures [C04] no_predefined_collision: result1 == nil ==> !nameDefined(h.predefinedTopics, h.clientID, result0)
-//@   ensures [C04] exhaustion_is_final: old(h.topicID.cycle > 0) ==> result1 != nil
-//@   ensures [C04] monotone: forall k uint16 :: old(k in h.topicID.given) ==> (k in h.topicID.given)
-//@   ensures [C04] error_is: result1 != nil ==> result1 == ErrTopicIDsExhausted && result0 == 0
+//@   ensures [C04,C02] keeps: topicSeq(h)
+//@   ensures [C04,C02] in_range: result1 == nil ==> 1 <= result0 && result0 <= 0xFFFE
+//@   ensures [C04,C02] never_reissued: result1 == nil ==> !old(result0 in h.topicID.given) && (result0 in h.topicID.given)
+//@   ensures [C04,C02] no_predefined_collision: result1 == nil ==> !nameDefined(h.predefinedTopics, h.clientID, result0)
+//@   ensures [C04,C02] exhaustion_is_final: old(h.topicID.cycle > 0) ==> result1 != nil
+//@   ensures [C04,C02] monotone: forall k uint16 :: old(k in h.topicID.given) ==> (k in h.topicID.given)
+//@   ensures [C04,C02] error_is: result1 != nil ==> result1 == ErrTopicIDsExhausted && result0 == 0
 
 // Range closure of findRegisteredTopicID: inRange(k, v) = (k, v) is an entry of
 // the map being ranged over (bound to h.registeredTopics at the Range call).
